@@ -310,7 +310,9 @@ CONTRACTS = [
     Contract("wntr.utils.polynomial_interpolation:cubic_spline", ["C02", "C07", "C08"], [_spline_case()],
              interpret_always=(cubic_spline,)),
     Contract("wntr.sim.models.param:value params (pmin, leak_coeff, leak_area, elevation, pump_power, valve_setting, minor_loss, tcv_resistance, hw_resistance)",
-             ["C02", "C07", "C08"], _value_cases, models=MODELS, trusted=TR),
+             ["C02", "C07", "C08", "C10"], _value_cases, models=MODELS, trusted=TR,
+             note="C10: every parameter is built from the element's *current* attribute (setting, power, ...), so the model a continued run "
+                  "builds equals the one the uninterrupted run holds; initial_* values are distinct symbols in these contracts"),
     Contract("wntr.sim.models.param:pnom_param.build", ["C07"],
              [_pnom_case(pn, ex) for pn in (False, True) for ex in (False, True)], models=MODELS, trusted=TR),
     Contract("wntr.sim.models.param:pdd_poly_coeffs_param.build", ["C07"],
